@@ -592,8 +592,9 @@ def c18_overlap_h2c(rng, res):
             if cold.current_capacity != want_cold:
                 bad.append("cold free space %s, want %s" % (fr(cold.current_capacity), want_cold))
         for b_ in bad:
-            res["violations"].append({"prop": "C18", "kind": "overlapping-moves-end-state", "sig": "tier-move-overlap:" + b_.split()[0],
-                                      "detail": b_, "input": inp})
+            for pr in ("C18", "C07"):
+                res["violations"].append({"prop": pr, "kind": "overlapping-moves-end-state", "sig": "tier-move-overlap:" + b_.split()[0],
+                                          "detail": b_, "input": inp})
     finally:
         h.close()
 
@@ -731,6 +732,18 @@ def check_c11(rng, n, thorough=False):
                 segs = [T]
             part = runsim.run_spec(spec, until=k, resume=segs)
             res["evaluations"] += 1
+            if len(segs) > 1 and k % 3 == 0:
+                # the state seen at a pause reached through resume() is that of one uninterrupted run of m steps
+                m = segs[0]
+                mid = runsim.run_spec(spec, until=k, resume=[m])
+                ref = runsim.run_spec(spec, until=m)
+                res["evaluations"] += 1
+                for key in ("rows", "events", "tasks", "task_order"):
+                    if mid["out"][key] != ref["out"][key]:
+                        res["violations"].append({"prop": "C11", "kind": "paused-run-differs", "sig": "paused-run-differs:mid:" + key,
+                                                  "detail": "start(%s)+resume(%s) differs from start(%s) in %s" % (k, m, m, key),
+                                                  "input": {"spec": spec, "k": k, "segments": [m], "T": m}})
+                        break
             if len(segs) > 1:
                 res["nontrivial"] += 1
             bump(res["dist"], "segments=%d" % min(4, len(segs)))
